@@ -7,7 +7,9 @@ use crate::refmodel::Strat;
 use crate::report::Report;
 use serde_json::{json, Value};
 
-pub const BAD_PATHS: [&str; 40] = [
+pub const BAD_PATHS: [&str; 47] = [
+    // names the library itself puts into the payload: a path naming them names no user claim
+    "$.cnf", "$.cnf.jwk", "$.cnf.jwk.x", "$._sd_alg", "$._sd", "$._sd[0]", "$.iat",
     "a", "", "$", "$a", "a.b", " $.a", "$.zz", "$.a[7]", "$.a[0", "$.a]", "$.a[00]", "$.a[0]b", "$.a..b", "$.a.", "$.[0]", "$..a", "$.a[-1]", "$.a[ 0]",
     "$.iss", "$.exp", "$.a..a", "$.a...a", "$.b..a", "$.a..[0]", "$.a.[0]..a", "$.a.a.", "$.a[+0]", "$.a[01]", "$.a[0x0]", "$.a[0 ]", "$.a[\u{660}]", "$.a[0][+0]", "$.b[-0]", "$.a[1e0]", "$.", "$..", "$.[", "$.]", "$.a.a.a.a.a.a", "$.b[0][0][0]",
 ];
@@ -222,7 +224,7 @@ pub fn run(rep: &Report) {
     };
     run_structures(rep, &format!("S({},3) x every Custom subset of 2..4 paths in every order", if quick { 3 } else { 4 }), &if quick { trees(3, 3) } else { trees(4, 3) }, &permuted, &|_| vec![Cfg::CHEAP], checks, false);
     run_structures(rep, "S(3,3) x every Custom subset with the path list reversed / every path twice / all notations of each listed node together", &trees(3, 3), &reordered, &two, checks, false);
-    run_structures(rep, "S(2,2) x every Custom subset + one malformed/dangling path (26 of them, front and back)", &small, &with_bad, &two, checks, false);
+    run_structures(rep, "S(2,2) x every Custom subset + one malformed/dangling path (47 of them, front and back)", &small, &with_bad, &two, checks, false);
     // alphabets
     let base = if quick { trees(2, 2) } else { trees(3, 3) };
     let names = crate::gen::name_alphabet();
@@ -235,6 +237,10 @@ pub fn run(rep: &Report) {
     let nt = named_trees(3, 3, &pool);
     run_structures(rep, "name-prefix family: S(3,3) with member names drawn from {a, ab, abc, b} in every sibling-distinct way x all strategies", &nt, &all_strats, &two, checks, false);
     run_structures(rep, "equal siblings: identical elements / members side by side x all strategies", &equal_sibling_trees(), &all_strats, &c8, checks, false);
+    let lz = |_: usize| vec![Cfg { fmt: Fmt::Compact, alg: Alg::HS256, decoys: false, hk: Hk::EsLz }, Cfg { fmt: Fmt::Json, alg: Alg::HS256, decoys: true, hk: Hk::EsLz }];
+    run_structures(rep, "holder key with a leading zero octet in a coordinate: S(3,3) x {NoSD, Top, All} x 2 cfgs (the confirmation claim must carry the key exactly as given)", &trees(3, 3), &fixed_strategies, &lz, checks, false);
+    run_structures(rep, "issuer identifiers of 16 shapes (mixed case, trailing slash, default port, DID / URN, blanks, empty, non-ASCII, percent-encoded) x 2 trees x {NoSD, Top, All} x 8 cfgs", &iss_variant_trees(), &fixed_strategies, &c8, checks, false);
+    run_structures(rep, "the holder's own public key as a user claim named sub_jwk / jwk / holder_key / cnf2 / confirmation (3 positions each) x 8 strategies x 8 cfgs", &confirmation_like_trees(), &few_strategies, &c8, checks, false);
     run_structures(rep, "related-value pairs: 23 values in every ordered pair, equal pairs included, in 5 container shapes x {Top, All, 2 Custom}", &value_pair_trees(), &pair_strategies, &c8, checks, false);
     run_structures(rep, "count sweep: every member / element count 0..40 and around 64, 128, 256 x {NoSD, Top, All}", &count_sweep_trees(), &count_sweep_strategies, &c8, checks, false);
     run_structures(rep, "wide containers: arrays / objects of 11, 100, 300 entries x 6 strategies", &wide_trees(), &wide_strategies, &c8, checks, false);
